@@ -21,6 +21,71 @@ POST = {
                  "and not (type(exc) is CannotProvide and raised_by(exc) is NoneV), True)"),
     "error-kinds": "implies(raised, isinstance(exc, Exception))",
 }
+
+
+def _bus_scenarios(mod):
+    import itertools
+    from adaptix._internal.provider.essential import CannotProvide
+
+    class FakeRouter:
+        def __init__(self, handlers):
+            self.handlers = handlers
+
+        def route_handler(self, mediator, request, off):
+            if off < len(self.handlers):
+                return self.handlers[off], off + 1
+            raise StopIteration
+
+        def get_max_offset(self):
+            return len(self.handlers)
+
+    class Rep:
+        def get_provider_not_found_description(self, request):
+            return "nf"
+
+        def get_request_context_notes(self, request):
+            return ()
+
+    def mk(kind, n):
+        def h(mediator, request):
+            if kind == "A":
+                return ("answer", n, mediator)
+            if kind == "D":
+                raise CannotProvide("decline")
+            if kind == "T":
+                raise CannotProvide("terminal", is_terminal=True)
+            raise ValueError("boom")
+        h.__name__ = f"h{kind}{n}"
+        return h
+    out = []
+    for n in range(0, 4):
+        for combo in itertools.product("ADTV", repeat=n):
+            for off in range(0, n + 1):
+                def factory(combo=combo, off=off):
+                    router = FakeRouter([mk(k, i) for i, k in enumerate(combo)])
+                    bus = mod.BasicRequestBus(router, Rep(), lambda request, o: ("mediator", o))
+                    ghosts = {
+                        "route_found": lambda r, req, o: o < len(r.handlers),
+                        "route_h": lambda r, req, o: r.handlers[o] if 0 <= o < len(r.handlers) else None,
+                        "route_off": lambda r, req, o: o + 1,
+                        "route_max": lambda r: len(r.handlers),
+                        "pair": lambda a, b: (a, b),
+                        "ok": lambda f, a: _ok(f, a),
+                        "res": lambda f, a: f(*a) if isinstance(a, tuple) else f(a),
+                    }
+                    return mod.BasicRequestBus._send_inner, {"self": bus, "request": "REQ", "search_offset": off}, ghosts
+                out.append(("".join(combo) + f"@{off}", factory))
+    return out
+
+
+def _ok(f, a):
+    try:
+        f(*a) if isinstance(a, tuple) else f(a)
+        return True
+    except Exception:  # noqa: BLE001
+        return False
+
+
 OPAQUE = {
     "AggregateCannotProvide.make": (lambda m: m.AggregateCannotProvide.make.__func__, [], {"result_class": None}),
     "_attach_request_context_notes": (lambda m: m.BasicRequestBus._attach_request_context_notes, [], {"returns_arg": 1}),
@@ -39,7 +104,90 @@ contract(F, "BasicRequestBus._send_inner", props=["C09"], frame=False,
          requires=["search_offset >= 0", f"search_offset <= route_max({R})"],
          post={"answer": POST["answer"], "error-kinds": POST["error-kinds"]},
          methods={"route_handler": "ROUTE", "get_provider_not_found_description": "VAL"},
-         decl_disciplines={"route_h": "ANY"}, opaque=OPAQUE,
+         decl_disciplines={"route_h": "ANY"}, opaque=OPAQUE, scenarios=_bus_scenarios,
          loops={0: LoopSpec(inv=[f"next_offset >= search_offset", f"next_offset <= route_max({R})"],
                             decreases=f"route_max({R}) - next_offset")},
+         cover=["returned", "raised"])
+
+
+# ---- Chain.FIRST / Chain.LAST: the user function and the next provider's result compose exactly once ---------------
+FW = "provider/provider_wrapper.py"
+CUR = "res(handler, pair(mediator, request))"
+NXT = "mcall('provide_from_next', mediator)"
+for chain, first, second in (("FIRST", CUR, NXT), ("LAST", NXT, CUR)):
+    contract(FW, "ChainingProvider._wrap_handler.<locals>.chaining_handler", name=f"{FW}:chaining_handler[{chain}]",
+             props=["C09"],
+             via=Via("ChainingProvider._wrap_handler",
+                     {chain: (lambda m, chain=chain: m.ChainingProvider(getattr(m.Chain, chain), None))},
+                     args={"handler": "ANY"}),
+             params={"mediator": "sym", "request": "sym"}, then={"data": "D"},
+             methods={"provide_from_next": "VAL_OR_RAISE"},
+             decl_disciplines={"res": "ANY", "mcall_provide_from_next": "ANY"},
+             post={
+                 # documented direction: FIRST = user function first, its result goes to the next provider's processor
+                 "direction": f"implies(returned, result == res({second}, res({first}, data)))",
+                 "accept-iff": f"returned == (ok({first}, data) and ok({second}, res({first}, data)))",
+                 "once-first": f"implies(returned, calls_to({first}) == 1)",
+                 "once-second": f"implies(returned, calls_to({second}) == 1)",
+                 "handler-once": "calls_to(handler) == 1",
+             },
+             cover=["returned", "raised"])
+
+
+# ---- a retort placed in a recipe answers every request class that any provider of its FULL recipe handles ----------
+SF = "retort/searching_retort.py"
+
+
+def _retort_obj(n_full, n_inst):
+    return ("obj", lambda m: m.SearchingRetort,
+            {"_full_recipe": ("tuple", ["sym"] * n_full), "_instance_recipe": ("tuple", ["sym"] * n_inst)})
+
+
+for _nf, _ni in ((2, 1), (3, 0), (1, 1)):
+    covered = " and ".join(
+        f"exists(lambda e: 0 <= e and e < len(result) and result[e][0] is mcall_rows(self._full_recipe[{p}])[{r}][0] and "
+        f"type(result[e][1]) is AlwaysTrueRequestChecker)" for p in range(_nf) for r in range(2))
+    contract(SF, "SearchingRetort.get_request_handlers", name=f"{SF}:SearchingRetort.get_request_handlers[full{_nf}-inst{_ni}]",
+             props=["C09"], params={"self": _retort_obj(_nf, _ni)},
+             methods={"get_request_handlers": ("TUPLES", 2, 3)},
+             post={"covers-full-recipe": f"implies(returned, {covered})", "raises-nothing": "returned",
+                   "one-handler": "implies(returned, forall(lambda e: implies(0 <= e and e < len(result), result[e][2] is result[0][2])))"},
+             notes=[f"bounded shape: full recipe of {_nf} providers with 2 handler rows each, instance recipe of {_ni}"],
+             bounded_ok=True, cover=["returned"])
+
+# ---- the mediator handed to a handler continues the search AFTER that handler ---------------------------------------
+MF = "retort/builtin_mediator.py"
+MED = ("obj", lambda m: m.BuiltinMediator, {"_request_buses": "sym", "_request": "sym", "_search_offset": "int",
+                                              "_no_request_bus_error_maker": "sym", "_call_cache": "dict"})
+contract(MF, "BuiltinMediator.provide_from_next", props=["C09"], params={"self": MED},
+         methods={"send_chaining": "VAL_OR_RAISE"},
+         post={"continues-at-offset": ("implies(returned, result == mcall('send_chaining', lookup(self._request_buses, type(self._request)), "
+                                       "self._request, self._search_offset))")},
+         cover=["returned"])
+
+
+# ---- recursion tracking belongs to top-level `send` only: a chained search (`provide_from_next`) must not register or
+# resolve recursion stubs, otherwise the stub of a recursive type is bound to the un-chained processor -----------------
+RBUS = ("obj", lambda m: m.RecursiveRequestBus, {"_router": "sym", "_error_representor": "sym", "_mediator_factory": "TOTAL",
+                                                   "_recursion_resolver": "sym"})
+RB_METHODS = {"route_handler": "ROUTE", "get_provider_not_found_description": "VAL",
+              "track_request": "VAL", "track_response": "VAL"}
+contract(F, "BasicRequestBus.send_chaining", name=f"{F}:RecursiveRequestBus.send_chaining", props=["C09"], frame=False,
+         params={"self": RBUS, "request": "sym", "search_offset": "int"},
+         requires=["search_offset >= 0", f"search_offset <= route_max({R})"],
+         methods=RB_METHODS, decl_disciplines={"route_h": "ANY"}, opaque=OPAQUE,
+         loops={("_send_inner", 0): LoopSpec(inv=["next_offset >= search_offset", f"next_offset <= route_max({R})"],
+                                             decreases=f"route_max({R}) - next_offset")},
+         post={"no-recursion-tracking": "mcalls('track_request') == 0 and mcalls('track_response') == 0",
+               "answer": POST["answer"]},
+         cover=["returned", "raised"])
+contract(F, "RecursiveRequestBus.send", props=["C09"], frame=False,
+         params={"self": RBUS, "request": "sym"}, requires=[f"0 <= route_max({R})"],
+         methods=RB_METHODS, decl_disciplines={"route_h": "ANY"}, opaque=OPAQUE,
+         loops={("_send_inner", 0): LoopSpec(inv=["next_offset >= search_offset", f"next_offset <= route_max({R})"],
+                                             decreases=f"route_max({R}) - next_offset")},
+         post={"stub-or-search": ("implies(returned, ite(mcall('track_request', self._recursion_resolver, request) is None, "
+                                  "mcalls('track_response') == 1, result is mcall('track_request', self._recursion_resolver, request) "
+                                  "and mcalls('route_handler') == 0))"),
+               "tracked-once": "mcalls('track_request') == 1"},
          cover=["returned", "raised"])
